@@ -27,23 +27,27 @@ Lemma parse_build e pl c : build_envelope e pl = Ok c -> parse_envelope c = Ok (
 Proof.
   unfold build_envelope. destruct (Nat.eqb_spec (length e) 0); [discriminate|].
   destruct (N.ltb_spec maxLengthEncryptedDEK (lenN e)) as [|Hm]; [discriminate|].
-  intros H; inversion H; subst c; clear H.
+  assert (Hhl : length (be_bytes 4 (lenN e)) = 4%nat) by apply be_bytes_length.
+  assert (Hhv : be_val (be_bytes 4 (lenN e)) = lenN e).
+  { rewrite be_val_be_bytes. change (256 ^ N.of_nat 4) with 4294967296.
+    apply N.mod_small. unfold maxLengthEncryptedDEK in Hm. lia. }
+  set (hdr := be_bytes 4 (lenN e)) in *. clearbody hdr.
+  intros H. injection H as <-.
   unfold parse_envelope, lenDEK, maxLengthEncryptedDEK, lenN in *.
-  rewrite !app_length, be_bytes_length.
+  rewrite !app_length, Hhl.
   destruct (Nat.leb_spec (4 + (length e + length pl)) 4); [lia|].
-  rewrite slice_ok by (rewrite ?app_length, ?be_bytes_length; lia).
-  cbn [bind skipn]. rewrite Nat.sub_0_r.
-  rewrite (firstn_app_len 4) by (rewrite be_bytes_length; reflexivity).
-  rewrite be_val_be_bytes. change (256 ^ N.of_nat 4) with 4294967296.
-  rewrite N.mod_small by lia.
+  rewrite slice_ok by (rewrite ?app_length, ?Hhl; lia).
+  cbn [bind]. rewrite skipn_O, Nat.sub_0_r.
+  rewrite (firstn_app_len 4) by (symmetry; exact Hhl).
+  rewrite Hhv.
   destruct (N.leb_spec (N.of_nat (length e)) 0); [lia|].
   destruct (N.ltb_spec 4096 (N.of_nat (length e))); [lia|].
   destruct (N.ltb_spec (N.of_nat (4 + (length e + length pl) - 4)) (N.of_nat (length e))); [lia|].
   cbn [orb]. rewrite Nnat.Nat2N.id.
-  rewrite slice_ok by (rewrite ?app_length, ?be_bytes_length; lia). cbn [bind].
-  rewrite (skipn_app_len 4) by (rewrite be_bytes_length; reflexivity).
+  rewrite slice_ok by (rewrite ?app_length, ?Hhl; lia). cbn [bind].
+  rewrite (skipn_app_len 4) by (symmetry; exact Hhl).
   rewrite firstn_all2 by (rewrite !app_length; lia).
-  rewrite slice_ok by (rewrite ?app_length; lia). cbn [bind skipn]. rewrite Nat.sub_0_r, firstn_app_exact.
+  rewrite slice_ok by (rewrite ?app_length; lia). cbn [bind]. rewrite skipn_O, Nat.sub_0_r, firstn_app_exact.
   rewrite slice_ok by (rewrite ?app_length; lia). cbn [bind].
   rewrite skipn_app_exact, firstn_all2 by (rewrite app_length; lia). reflexivity.
 Qed.
@@ -56,17 +60,17 @@ Lemma parse_inv c e pl : parse_envelope c = Ok (e, pl) ->
 Proof.
   unfold parse_envelope, lenDEK, maxLengthEncryptedDEK.
   destruct (Nat.leb_spec (length c) 4); [discriminate|].
-  rewrite slice_ok by lia. cbn [bind skipn]. rewrite Nat.sub_0_r.
+  rewrite slice_ok by lia. cbn [bind]. rewrite skipn_O, Nat.sub_0_r.
   set (n := be_val (firstn 4 c)).
   destruct (N.leb_spec n 0); [discriminate|].
   destruct (N.ltb_spec 4096 n); [discriminate|].
   destruct (N.ltb_spec (N.of_nat (length c - 4)) n); [discriminate|]. cbn [orb].
   rewrite slice_ok by lia. cbn [bind].
   rewrite (firstn_all2 (n := (length c - 4)%nat)) by (rewrite skipn_length; lia).
-  rewrite slice_ok by (rewrite ?skipn_length; lia). cbn [bind skipn]. rewrite Nat.sub_0_r.
+  rewrite slice_ok by (rewrite ?skipn_length; lia). cbn [bind]. rewrite skipn_O, Nat.sub_0_r.
   rewrite slice_ok by (rewrite ?skipn_length; lia). cbn [bind].
   rewrite (firstn_all2 (n := (length (skipn 4 c) - N.to_nat n)%nat)) by (rewrite !skipn_length; lia).
-  rewrite skipn_skipn. intros H; inversion H. repeat split; try lia.
+  rewrite skipn_skipn. intros Hq; inversion Hq. repeat split; try lia.
 Qed.
 
 Lemma build_parse c e pl : wfb c -> parse_envelope c = Ok (e, pl) -> build_envelope e pl = Ok c.
@@ -87,7 +91,7 @@ Lemma parse_no_panic c : parse_envelope c <> Panic.
 Proof.
   unfold parse_envelope, lenDEK, maxLengthEncryptedDEK.
   destruct (Nat.leb_spec (length c) 4); [discriminate|].
-  rewrite slice_ok by lia. cbn [bind skipn]. rewrite Nat.sub_0_r.
+  rewrite slice_ok by lia. cbn [bind]. rewrite skipn_O, Nat.sub_0_r.
   set (n := be_val (firstn 4 c)).
   destruct (N.leb_spec n 0); [discriminate|].
   destruct (N.ltb_spec 4096 n); [discriminate|].
